@@ -10,8 +10,9 @@ package main
 
 import (
 	"fmt"
-	"os"
+	"math"
 	"math/big"
+	"os"
 	"sort"
 	"strings"
 	"time"
@@ -41,10 +42,11 @@ func guarded(f func() string) string {
 type region struct {
 	den   int64
 	loops [][]ipt // documented orientation for mesh kinds: outer cw, holes ccw, islands cw …
+	sc    scaleSpec
 }
 
 func (r *region) coord(p ipt) model2d.Coord {
-	return model2d.XY(float64(p.x)/float64(r.den), float64(p.y)/float64(r.den))
+	return model2d.XY(r.sc.apply(float64(p.x)/float64(r.den)), r.sc.apply(float64(p.y)/float64(r.den)))
 }
 
 func (r *region) all() []ipt {
@@ -63,8 +65,42 @@ func (r *region) ids() map[model2d.Coord]int {
 	return m
 }
 
-func (r *region) header() string {
+func (r *region) header() string { return r.headerZ(nil) }
+
+// headerZ: the op-line header.  Unit scale: `D den L …` with the lattice integers.  Dyadic scale
+// 2^k (exact in float64): `S k D den L …` – the driver multiplies by 2^k in Q.  Non-dyadic factor:
+// the float64 inputs are rounded, so the header carries them EXACTLY as big integers over a common
+// power-of-two denominator (`D 2^m L …`); extra values zs (ProfileMesh's minZ, maxZ) share that
+// denominator and are appended as ` Z z0 z1`.
+func (r *region) headerZ(zs []float64) string {
 	var sb strings.Builder
+	if r.sc.f != 0 {
+		var vals []float64
+		for _, l := range r.loops {
+			for _, p := range l {
+				cc := r.coord(p)
+				vals = append(vals, cc.X, cc.Y)
+			}
+		}
+		vals = append(vals, zs...)
+		den, ints := exactInts(vals)
+		fmt.Fprintf(&sb, "D %s L %d", den.String(), len(r.loops))
+		k := 0
+		for _, l := range r.loops {
+			fmt.Fprintf(&sb, " %d", len(l))
+			for range l {
+				fmt.Fprintf(&sb, " %s %s", ints[k].String(), ints[k+1].String())
+				k += 2
+			}
+		}
+		if len(zs) == 2 {
+			fmt.Fprintf(&sb, " Z %s %s", ints[k].String(), ints[k+1].String())
+		}
+		return sb.String()
+	}
+	if r.sc.k != 0 {
+		fmt.Fprintf(&sb, "S %d ", r.sc.k)
+	}
 	fmt.Fprintf(&sb, "D %d L %d", r.den, len(r.loops))
 	for _, l := range r.loops {
 		fmt.Fprintf(&sb, " %d", len(l))
